@@ -19,8 +19,8 @@ import (
 
 var c09Routes = []string{"/s", "/o/?t", "/d/{x}", "/e/?{x}", "/{m: **}", "/o/?{y}", "/o/t"}
 var c09APIs = []string{"Get", "Routes(GET,POST)", "Routes(GET;POST)", "Any", "Post"}
-var c09HdrSets = [][]string{{}, {"X-K", "^v$"}, {"X-K", "", "Y-K", "b"}}
-var c09ReqHdrs = []map[string]string{{}, {"X-K": "v"}, {"X-K": "w"}, {"X-K": ""}, {"X-K": "v", "Y-K": "b"}, {"X-K": "w", "Y-K": "xbx"}}
+var c09HdrSets = [][]string{{}, {"X-K", "^v$"}, {"X-K", "", "Y-K", "b"}, {"X-K", ""}}
+var c09ReqHdrs = []map[string]string{{}, {"X-K": "v"}, {"X-K": "w"}, {"X-K": ""}, {"X-K": "v", "Y-K": "b"}, {"X-K": "w", "Y-K": "xbx"}, {"X-K": "", "Y-K": "b"}}
 var c09Paths = []string{"/s", "/o", "/o/t", "/o/u", "/d/v", "/e", "/e/v", "/zz", "/o/", "//s", "/d/v/w"}
 var c09Methods = []string{"GET", "POST", "PUT"}
 
